@@ -601,6 +601,14 @@ pub fn c17_scenarios(quick: bool) -> Vec<Scenario> {
 pub fn run_c17(ctx: &Ctx) -> Outcome {
     let mut out = with_budget_scale(0.85, || run_c17_main(ctx));
     out.absorb(generated_pass(ctx, "C17", judge_c17, full_policy()));
+    {
+        let mut vs = VioSet::default();
+        for x in std::mem::take(&mut out.violations) {
+            vs.add(x);
+        }
+        crate::fill::sweep(&mut out, &mut vs, ctx.tier.is_quick(), "C17");
+        out.violations = vs.into_vec();
+    }
     out
 }
 
